@@ -9,8 +9,8 @@ the protocol stored in `Listen.Proto` is one `main.startServers` has a case for 
 when *any* key fails its check (which error is reported first is not modelled), and for an accepted entry every
 field is a function of the map: `Proto` is the value of `proto` if present, else `https` when there is a `cs`
 key, else `http` (the `if l.Proto == "" { l.Proto = "https" }` under `cs` and the later `proto` assignment give
-the same result in either order).  One thing does depend on the order in the real code — `Addr` when both the
-positional address and `addr=` are given — see `addrKeys` and the driver's tag `two-address-keys`.
+the same result in either order).  `Addr` when both the positional address and `addr=` are given used to depend
+on that order (defect D15-3, the entry is now rejected: `addrKeys`, `LErr.twoAddrs`).
 
 External: `go-sockaddr` templates (`addrOf`), `time.ParseDuration`, `parseTLSVersion`, `parseTLSCiphers`
 (`fieldOK key value`) are parameters; the driver instantiates them with oracles computed by the Go side.
@@ -44,6 +44,7 @@ deriving Repr, DecidableEq
 inductive LErr where
   | field (key : Str)        -- a key's own check failed
   | needAddr
+  | twoAddrs                 -- positional address and `addr=` in one entry (D15-3 repair)
   | csNeedsTLSProto
   | protoNeedsCs
 deriving Repr, DecidableEq
@@ -60,7 +61,8 @@ def keyBad (E : ListenEnv) (k v : Str) : Bool :=
   else if checkedKeys.contains k then !E.fieldOK k v
   else false
 
-/-- the address keys present (more than one: the real code keeps whichever the map iteration visits last) -/
+/-- the address keys present (before the repair of D15-3 the real code kept, of two, whichever the map iteration
+visited last) -/
 def addrKeys (cfg : Map) : List Str := (cfg.filter (fun kv => kv.1 = [] ∨ kv.1 = "addr".toList)).map (·.1)
 
 /-- `l.Proto` after the loop and the `if l.Proto == "" { l.Proto = "http" }` that follows it -/
@@ -79,6 +81,7 @@ def addrOfCfg (E : ListenEnv) (cfg : Map) : Str :=
   | none => []
 
 def parseListenM (E : ListenEnv) (cfg : Map) : Except LErr LListen :=
+  if (addrKeys cfg).length > 1 then .error .twoAddrs else
   match cfg.find? (fun kv => keyBad E kv.1 kv.2) with
   | some kv => .error (.field kv.1)
   | none =>
